@@ -30,13 +30,40 @@ def toSigned (w : Nat) (n : Nat) : Int :=
 /-- Rust `as i64` on a 64-bit unsigned value -/
 def wrapI64 (i : Int) : Int := toSigned 8 (i % (2 ^ 64 : Nat)).toNat
 
-/-- `Die::discr_value` (unit/die.rs): `DW_AT_discr_value` of a `w`-byte constant form read with gimli's `sdata_value`,
-    i.e. SIGNED — the key under which `TypeParser` files a variant of a Rust enum -/
-def discrKey (w raw : Nat) : Int := toSigned w raw
+/-- width mask of `Die::int_const`: constants of an unsigned type narrower than 8 bytes are cut to the type's width -/
+def constMaskBits (size : Nat) : Nat := if 1 ≤ size ∧ size ≤ 7 then 8 * size else 64
 
-/-- `Die::const_value` (unit/die.rs) on a `DW_FORM_udata` constant: gimli's `sdata_value` of an unsigned value is
-    `i64::try_from(v).ok()`; an enumerator without key is dropped from the table of a C-like enum -/
-def constKey (raw : Nat) : Option Int := if raw < 2 ^ 63 then some (raw : Int) else none
+/-- `Die::int_const` (unit/die.rs) on a fixed-size data form (`DW_FORM_data1/2/4/8`, `w` bytes holding `raw`).
+    `unsigned = none`: the constant belongs to a signed type, gimli's `sdata_value` sign-extends the form;
+    `unsigned = some size`: it belongs to an unsigned type of `size` bytes: zero-extended, cut to the type's width and kept as the
+    `i64` with the same bits — exactly what `try_as_number` makes of the number read from memory -/
+def intConstData (unsigned : Option Nat) (w raw : Nat) : Int :=
+  match unsigned with
+  | none => toSigned w raw
+  | some size => wrapI64 ((raw % 2 ^ constMaskBits size : Nat) : Int)
+
+/-- `Die::int_const` on a `DW_FORM_udata` constant (`sdata_value` of an unsigned LEB value is `i64::try_from(v).ok()`) -/
+def intConstUdata (unsigned : Option Nat) (raw : Nat) : Option Int :=
+  match unsigned with
+  | none => if raw < 2 ^ 63 then some (raw : Int) else none
+  | some size => some (wrapI64 ((raw % 2 ^ constMaskBits size : Nat) : Int))
+
+/-- `Die::wide_int_const`: a constant of a 128-bit type is a block of (little-endian) bytes; it gets a key iff its value fits
+    the 64-bit key domain (`u64::try_from` / `i64::try_from`) -/
+def wideConst (unsigned : Bool) (bytes : Bytes) : Option Int :=
+  if bytes.isEmpty ∨ bytes.length > 16 then none else
+  if unsigned then
+    (if leNat bytes < 2 ^ 64 then some (wrapI64 (leNat bytes : Int)) else none)
+  else
+    let v := toSigned bytes.length (leNat bytes)
+    if -(2 ^ 63 : Int) ≤ v ∧ v < 2 ^ 63 then some v else none
+
+/-- `Die::discr_value` for the UNSIGNED `w`-byte tag of a Rust enum whose `DW_AT_discr_value` is a `w`-byte data form holding
+    `raw` — the key under which `TypeParser` files the variant -/
+def discrKey (w raw : Nat) : Int := intConstData (some w) w raw
+
+/-- `Die::const_value` for an enumerator of a C-like enum with an unsigned underlying type (`DW_FORM_udata`) -/
+def constKey (raw : Nat) : Option Int := intConstUdata (some 8) raw
 
 /-! ## the type graph (what `TypeParser` produced) -/
 
@@ -130,7 +157,10 @@ deriving Inhabited, Repr, BEq
 
 /-- `ScalarValue::try_as_number` -/
 def Scalar.asNumber : Scalar → Option Int
-  | .num k v => if k = .i128 ∨ k = .u128 then none else some (wrapI64 v)
+  | .num k v =>
+    if k = .i128 then (if -(2 ^ 63 : Int) ≤ v ∧ v < 2 ^ 63 then some v else none)      -- `i64::try_from(num).ok()`
+    else if k = .u128 then (if v < 2 ^ 64 then some (wrapI64 v) else none)              -- `u64::try_from(num).ok().map(as i64)`
+    else some (wrapI64 v)
   | _ => none
 
 inductive Val where
@@ -259,6 +289,14 @@ def assumePointerVal (v : Val) (name : String) : Option Val :=
 def assumeStruct (v : Val) (name : String) : Option Val :=
   bfsFind (fun (f, c) => match c with | .struct ty ns vs tp => if f.is name then some (.struct ty ns vs tp) else none | _ => none)
     bfsFuel [(Field.root, v)]
+
+/-- `assume_field_as_rust_enum(name)` and the field name of the variant it shows: `none` = no enum under that name,
+    `some none` = an enum that shows no variant -/
+def assumeRustEnumVariant (v : Val) (name : String) : Option (Option (Option String)) :=
+  bfsFind (fun (f, c) => match c with
+    | .renum _ n _ => if f.is name then some (some n) else none
+    | .renumNone _ => if f.is name then some none else none
+    | _ => none) bfsFuel [(Field.root, v)]
 
 /-! ## guards (constants mirrored from specialization/mod.rs; re-read from the source by tools/tables/valguards.py) -/
 
@@ -710,7 +748,9 @@ def specialize (c : Ctx) (rec : Rec) (k : SpecKind) (sv : Val) (id : Nat) (tps :
     let kvs ← parseBuckets c rec kv kvSize ctrl idx
     if k == .hashmap then some (.specMap false sv (kvs.map (·.1)) (kvs.map (·.2)))
     else some (.specSet false sv (kvs.map (·.1)))
-  | .btreemap => do
+  | .btreemap =>
+    -- a map that never held an element: `root` is the variant `None`
+    if assumeRustEnumVariant sv "root" == some (some (some "None")) then some (.specMap true sv [] []) else do
     let height ← assumeScalarNumber sv "height"
     let ptr ← assumePointer sv "pointer"
     let kt ← lookupTParam tps "K"
@@ -746,6 +786,17 @@ def specialize (c : Ctx) (rec : Rec) (k : SpecKind) (sv : Val) (id : Nat) (tps :
   | .tls => some (.specOther "tls" sv)
   | .uuid | .instant | .systime => some (.specOther "other" sv)
   | .plain => some sv
+
+/-- the variant `parse_rust_enum` shows for discriminant number `v`: the one keyed `v`, else the default one -/
+def selectVariant (enums : List (Option Int × Member)) (v : Int) : Option Member :=
+  match enums.find? (·.1 == some v) with
+  | some e => some e.2
+  | none => (enums.find? (·.1 == none)).map (·.2)
+
+/-- `parse_rust_enum`: an enum WITHOUT discriminant member that has a single variant shows that variant; otherwise the
+    variant is selected by the discriminant value read from memory (none read: nothing shown) -/
+def chooseVariant (discr : Option Member) (enums : List (Option Int × Member)) (dv : Option Int) : Option Member :=
+  if discr.isNone && enums.length == 1 then enums.head?.map (·.2) else dv.bind (selectVariant enums)
 
 /-- `parse_inner` (fuel = nesting depth of the type) -/
 def parseInner (c : Ctx) : Nat → Option Data → Nat → Option Val
@@ -792,10 +843,7 @@ def parseInner (c : Ctx) : Nat → Option Data → Nat → Option Val
         | some m => match parseMember c rec' m d with
           | some (_, .scalar _ (some s)) => s.asNumber
           | _ => none
-      let en : Option Member := dv.bind fun v =>
-        match enums.find? (·.1 == some v) with
-        | some e => some e.2
-        | none => (enums.find? (·.1 == none)).map (·.2)
+      let en : Option Member := chooseVariant discr enums dv
       some (match en.bind (parseMember c rec' · d) with
         | some (n, v) => .renum ty n v
         | none => .renumNone ty)
